@@ -44,6 +44,8 @@ def arcovar_marple(x, order):
 
     #   ----------------------------------------------------- Initialization
     x = np.array(x)
+    if x.dtype.kind in 'iub':
+        x = x.astype(float)   # integer products would wrap around
     N = len(x)
 
 
